@@ -124,7 +124,7 @@ class MonitoredContainer(Generic[T], ABC):
         :param add_relation_to_the_graph: Whether to add the relation to the graph or not
         :return: Whether the value was added or not
         """
-        if value in self:
+        if self._holds(value):
             return False
         self._add_item(
             value,
@@ -132,6 +132,12 @@ class MonitoredContainer(Generic[T], ABC):
             add_relation_to_the_graph=add_relation_to_the_graph,
         )
         return True
+
+    def _holds(self, value: Symbol) -> bool:
+        """
+        :return: Whether the value is already in the container.
+        """
+        return value in self
 
     @abstractmethod
     def _remove_item(self, item):
@@ -210,6 +216,14 @@ class MonitoredList(MonitoredContainer, list):
 
     def _remove_item(self, item):
         self.remove(item)
+
+    def _holds(self, value: Symbol) -> bool:
+        # compare identities: comparing values calls the __eq__ of the items, and an item that is still being
+        # constructed (the field is set by its __init__) does not have all of its attributes yet.
+        return any(
+            item is value or (isinstance(item, weakref.ref) and item() is value)
+            for item in self
+        )
 
     def _clear(self):
         self.clear()
